@@ -552,6 +552,19 @@ func checkWalkerLoop(ctx *Ctx, key, pos string, fn *ssa.Function, call *ssa.Call
 					return
 				}
 			}
+			// a guard whose other edge aborts: only "the field cannot be addressed" may abort the walk, and the
+			// transfer must be on the addressable side (header fields reached through a pointer always are)
+			ca, isCA := isMethod(i2.Cond, "(reflect.Value).CanAddr")
+			okAbort := false
+			if isCA {
+				if fc, ok := isMethod(ca.Call.Args[0], "(reflect.Value).Field"); ok && fc.Call.Args[0] == structVal && fc.Call.Args[1] == ssa.Value(iv) {
+					okAbort = edgeDominates(b, 0, call.Block())
+				}
+			}
+			if !okAbort {
+				fail("the walk is aborted under a condition other than a field that cannot be addressed (or on the wrong side of that test): " + i2.Cond.String())
+				return
+			}
 		}
 	}
 	// the error of the per-field call: a failure leaves the loop with a non-nil error, success goes on to the next field
